@@ -23,6 +23,7 @@ type Value struct {
 	changeTime time.Time
 
 	bus minibus.Bus
+	pub publishQueue // orders bus sends by commit order
 }
 
 func NewValue(opts ...Option) *Value {
@@ -59,6 +60,7 @@ func (r *Value) set(value proto.Message, request WriteRequest) (proto.Message, e
 		return nil, err
 	}
 
+	var ticket uint64
 	disarm := timeoutAlarm(time.Second, "GetAndUpdate took too long")
 	_, newValue, err := GetAndUpdate(
 		&r.mu,
@@ -69,6 +71,7 @@ func (r *Value) set(value proto.Message, request WriteRequest) (proto.Message, e
 		func(message proto.Message) {
 			r.value = message
 			r.changeTime = request.updateTime(r.clock)
+			ticket = r.pub.enqueue()
 		},
 	)
 	disarm()
@@ -78,14 +81,21 @@ func (r *Value) set(value proto.Message, request WriteRequest) (proto.Message, e
 	}
 
 	verifhook.At("value.set.beforePublish", &r.mu, newValue)
-	ctx, cancel := context.WithTimeout(context.TODO(), time.Second*5)
-	defer cancel()
-	r.bus.Send(ctx, &ValueChange{
-		Value:      newValue,
-		ChangeTime: request.updateTime(r.clock),
+	// events are published in commit order, a concurrent writer that committed before us publishes first
+	var sendErr error
+	r.pub.publish(ticket, func() {
+		ctx, cancel := context.WithTimeout(context.TODO(), time.Second*5)
+		defer cancel()
+		r.bus.Send(ctx, &ValueChange{
+			Value:      newValue,
+			ChangeTime: request.updateTime(r.clock),
+		})
+		if errors.Is(ctx.Err(), context.DeadlineExceeded) {
+			sendErr = errors.New("bus.Send blocked for too long")
+		}
 	})
-	if errors.Is(ctx.Err(), context.DeadlineExceeded) {
-		return nil, errors.New("bus.Send blocked for too long")
+	if sendErr != nil {
+		return nil, sendErr
 	}
 
 	return newValue, err
